@@ -19,7 +19,10 @@ RULE = ("case = generated acyclic RTL design (profiles acyclic/ff_heavy/big/shap
         "slices, nets, lambdas, loops) x 8..24 cycles of seeded inputs x 4 schedulers drawn from 13 (5 real pass "
         "groups, 5 seeded-order variants, forced/adversarial/unrolled linear extensions) x seeded faults "
         "(glitch.input, dup.eval, dup.block, restart.reset, ff permutation, object-hash stream); non-trivial = "
-        "design has >=3 update blocks, >=1 fault fired and >=1 non-zero non-input value compared; distinct = case digest")
+        "design has >=3 update blocks, >=1 fault fired and >=1 non-zero non-input value compared; distinct = case digest. "
+        "12% of the cases take a real RTL component from pymtl3.stdlib / the examples instead (queues, arbiters, "
+        "crossbars, register files, ChecksumRTL, ProcRTL, ...): no reference model there, but all 4 schedulers must agree "
+        "on every top-level signal of every component each cycle and the state must be a fixed point")
 TIERS = {"quick": {"runs": 480, "budget_s": 100, "chunk": 4},
          "thorough": {"runs": 40000, "budget_s": 1800, "chunk": 8}}
 REAL = ["pymtl3 DSL elaboration", "GenDAGPass", "Simple/Dynamic/HeuristicTopo/Mamba2020/UnrollSim passes",
@@ -34,6 +37,13 @@ PROFILES = ("acyclic", "acyclic", "ff_heavy", "big", "shapes")
 
 def gen_case(R, tier):
   c = R("case")
+  if c.random() < 0.12:
+    from . import sv_cosim as S
+    s = R("sched")
+    names = [n for n in S.corpus_names() if n != "ProcRTL" or c.random() < 0.3]
+    return {"family": "corpus", "name": c.choice(names), "ncycles": R("input").randint(10, 30),
+            "input_seed": R("input").getrandbits(32), "hash_seed": R.sub_seed("hash"),
+            "scheds": [[x, s.getrandbits(32), s.getrandbits(32)] for x in s.sample(C.ALL_SCHEDS, 4)]}
   prof = c.choice(PROFILES)
   spec = designgen.DesignGen(c, prof, uid="c%x" % (R.seed & 0xffffff)).gen()
   inp = R("input")
@@ -106,7 +116,94 @@ def run_one(case, sched, sched_seed, ff_seed, D, stats):
   return []
 
 
+def run_corpus(case):
+  """Real RTL from the library / examples: no reference model, but every scheduler must give the
+  same values on every top-level signal of every component, cycle by cycle, and the state after an
+  evaluation must be a fixed point."""
+  import random
+  from pymtl3 import Bits1
+  from pymtl3.dsl.Connectable import Signal
+  from pymtl3.dsl.errors import UpblkCyclicError
+  from ..core import seams
+  from ..sched import harness
+  from . import sv_cosim as S
+  D = _rng.Digest()
+  stats = {"fault_counts": {"family.corpus": 1}, "schedules": [], "sim_cycles": 0,
+           "probes": {"designs_with_subcomponents": 0, "designs_with_structs": 0, "blocks_ge_12": 0}}
+  make = S.build_instances({"family": "corpus", "name": case["name"]})
+  traces = []
+  for sched, sseed, fseed in case["scheds"]:
+    seams.set_hash_stream(case["hash_seed"] ^ sseed)
+    try:
+      top = make()
+      harness.prepare(top, sched, sseed, ff_perm_seed=fseed)
+    except UpblkCyclicError:
+      if sched in harness.ACYCLIC_ONLY:
+        stats["fault_counts"]["sched.rejected_cyclic." + sched] = 1
+        continue
+      return {"violations": [C.viol("exception_on_legal_design", {"design": case["name"], "sched": sched,
+                                                                  "exc": "UpblkCyclicError"}, exc="UpblkCyclicError")],
+              "digest": D.hex(), "nontrivial": False, "stats": stats}
+    except Exception as e:
+      return {"violations": [C.exc_violation(e, "build/%s/%s" % (case["name"], sched))], "digest": D.hex(),
+              "nontrivial": False, "stats": stats}
+    stats["fault_counts"]["sched." + sched] = 1
+    ports = S.top_ports(top, "verilog")
+    ins = [p for p in ports if p.is_input and p.py not in ("s.clk", "s.reset")]
+    sigs = sorted(repr(x) for x in top._dsl.all_signals if x.is_top_level_signal() and not repr(x).endswith(".clk"))
+    acc = cosim.Accessors(top, sigs)
+    rng = random.Random(case["input_seed"])
+    tr = []
+    try:
+      top.sim_reset()
+      for cyc in range(case["ncycles"]):
+        for p in ins:
+          v = rng.getrandbits(p.width) if rng.random() < 0.7 else rng.choice([0, (1 << p.width) - 1])
+          exec("%s @= v" % p.py, {"s": top, "v": p.to_py(v)})
+        top.sim_eval_combinational()
+        snap = acc.snapshot()
+        if cyc % 4 == 0:
+          ffs = top.get_all_update_ff()
+          blks = sorted([b for b in top._dag.final_upblks if b not in ffs], key=lambda b: getattr(b, "__name__", ""))
+          for b in rng.sample(blks, min(4, len(blks))):
+            b()
+            stats["fault_counts"]["dup.block"] = stats["fault_counts"].get("dup.block", 0) + 1
+          after = acc.snapshot()
+          if after != snap:
+            k = [k for k in snap if snap[k] != after[k]][0]
+            return {"violations": [C.viol("fixed_point", {"design": case["name"], "sched": sched, "cycle": cyc,
+                                                          "signal": k})], "digest": D.hex(), "nontrivial": False,
+                    "stats": stats}
+        tr.append(snap)
+        top.sim_tick()
+        tr.append(acc.snapshot())
+        stats["sim_cycles"] += 1
+    except IndexError:
+      stats["fault_counts"]["pymtl_index_error"] = 1
+      return {"violations": [], "digest": D.hex(), "nontrivial": False, "stats": stats}
+    except Exception as e:
+      return {"violations": [C.exc_violation(e, "sim/%s/%s" % (case["name"], sched))], "digest": D.hex(),
+              "nontrivial": False, "stats": stats}
+    traces.append((sched, tr))
+  viols = []
+  for sched, tr in traces[1:]:
+    s0, t0 = traces[0]
+    for i, (a, b) in enumerate(zip(t0, tr)):
+      if a != b:
+        k = [k for k in a if a[k] != b.get(k)][0]
+        viols.append(C.viol("schedulers_disagree", {"design": case["name"], "a": s0, "b": sched, "step": i,
+                                                    "signal": k, "va": hex(a[k]), "vb": hex(b[k])}))
+        break
+    if viols:
+      break
+  if traces:
+    D.add([sorted(x.items()) for x in traces[0][1][:6]])
+  return {"violations": viols, "digest": D.hex(), "nontrivial": len(traces) >= 2, "stats": stats}
+
+
 def run_case(case):
+  if case.get("family") == "corpus":
+    return run_corpus(case)
   D = _rng.Digest()
   stats = {"fault_counts": {}, "schedules": [], "sim_cycles": 0, "nonzero": False}
   viols = []
@@ -129,6 +226,8 @@ def run_case(case):
 
 def sample(case):
   from ..gen import emit
+  if case.get("family") == "corpus":
+    return case
   src = emit.source(case["spec"])
   return {"profile": case["spec"].get("profile"), "scheds": case["scheds"],
           "n_cycles": len(case["inputs"]), "first_input": case["inputs"][0],
@@ -136,4 +235,11 @@ def sample(case):
 
 
 def shrink(case):
+  if case.get("family") == "corpus":
+    if len(case["scheds"]) > 2:
+      for i in range(1, len(case["scheds"])):
+        yield dict(case, scheds=[case["scheds"][0], case["scheds"][i]])
+    if case["ncycles"] > 2:
+      yield dict(case, ncycles=case["ncycles"] // 2)
+    return
   yield from C.shrink_spec_case(case)
